@@ -94,9 +94,21 @@ Skip(J, keep) == [hard |-> FALSE, soft |-> HasX(J), v |-> keep]
 \* kind mismatch: an error, and the value is skipped
 Mismatch(J) == [hard |-> TRUE, soft |-> HasX(J), v |-> Nil]
 
+\* ---- a recursive Go type ----
+\*   type R struct { V int; Next *R `json:"next"`; Kids []R `json:"kids"` }
+\* [k |-> "rec", d |-> n] stands for R where the document (or value) nests R at most n more times: it is the unfolding of the
+\* definition (the generated code reaches R again through a recursion opcode, not through a copy of its program)
+RecField(n, jn, t) == [tag |-> IF n = jn THEN "none" ELSE "ren", n |-> n, jn |-> jn, t |-> t]
+Unfold(T) == IF T.k # "rec" THEN T
+             ELSE LET sub == [k |-> "rec", d |-> IF T.d = 0 THEN 0 ELSE T.d - 1]
+                  IN [k |-> "st", f |-> <<RecField("V", "V", [k |-> "int"]),
+                                          RecField("Next", "next", [k |-> "ptr", e |-> sub]),
+                                          RecField("Kids", "kids", [k |-> "slice", e |-> sub])>>]
+
 \* ---- zero and prior values ----
 RECURSIVE Zero(_)
-Zero(T) == CASE T.k \in NumKinds -> [g |-> "n", as |-> T.k, c |-> "z"]
+Zero(T) == CASE T.k = "rec" -> Zero(Unfold(T))
+             [] T.k \in NumKinds -> [g |-> "n", as |-> T.k, c |-> "z"]
              [] T.k = "bool" -> [g |-> "b", b |-> FALSE]
              [] T.k = "str" -> [g |-> "s", c |-> "se"]
              [] T.k = "num" -> [g |-> "n", as |-> "num", c |-> "se"]
@@ -107,7 +119,8 @@ Zero(T) == CASE T.k \in NumKinds -> [g |-> "n", as |-> T.k, c |-> "z"]
              [] OTHER -> Nil      \* ptr, slice, map, iface, raw, bytes
 
 RECURSIVE Pre(_)
-Pre(T) == CASE T.k \in NumKinds -> [g |-> "n", as |-> T.k, c |-> "p9"]
+Pre(T) == CASE T.k = "rec" -> IF T.d = 0 THEN [g |-> "st", f |-> <<[g |-> "n", as |-> "int", c |-> "p9"], Nil, Nil>>] ELSE Pre(Unfold(T))
+            [] T.k \in NumKinds -> [g |-> "n", as |-> T.k, c |-> "p9"]
             [] T.k = "bool" -> [g |-> "b", b |-> TRUE]
             [] T.k = "str" -> [g |-> "s", c |-> "old"]
             [] T.k = "num" -> [g |-> "n", as |-> "num", c |-> "p9"]
@@ -228,7 +241,8 @@ DecQuoted(T, J, old, o) ==
                               IN IF fit THEN Dec(T, in, old, o) ELSE Hard
     [] OTHER -> Mismatch(J)
 
-Dec(T, J, old, o) ==
+Dec(T0, J, old, o) ==
+  LET T == Unfold(T0) IN
   IF J.j = "x" THEN Hard
   ELSE IF T.k = "uj" THEN (IF HasX(J) THEN Hard ELSE Ok([g |-> "uj", d |-> J]))
   ELSE IF T.k = "raw" THEN (IF HasX(J) THEN Hard ELSE Ok([g |-> "raw", d |-> J]))
